@@ -78,10 +78,6 @@ Definition outcome_eqb (a b : outcome) : bool :=
 Definition case := (list Z * config * outcome)%type.
 Definition case_model (c : case) : bool :=
   let '(f, cfg, out) := c in outcome_eqb (reader_model (unrle f) cfg) out.
-(* the variant of the model that compares subtitle numbers by value: tells whether `is not` still behaves as identity *)
-Definition case_model_eq (c : case) : bool :=
-  let '(f, cfg, out) := c in outcome_eqb (reader_gen false (unrle f) cfg) out.
-
 (* text-field cases: (teletext, cct, tf, leaves returned by tf.to_model) *)
 Definition tf_case := (bool * list Z * list Z * list leaf)%type.
 Definition tf_case_model (c : tf_case) : bool :=
@@ -178,13 +174,11 @@ Definition spec_verdict (file : list Z) (cfg : config) (out : outcome) : Z :=
       end
   end.
 
-(* per case: bit 0 M = code, bit 1 M-with-value-comparison = code, bits 2-3 S verdict, then the trigger mask *)
+(* per case: bit 0 M = code, bits 1-2 S verdict, then the trigger mask *)
 Definition case_verdict (c : case) : Z :=
   let '(f, cfg, out) := c in
   let file := unrle f in
-  (if outcome_eqb (reader_model file cfg) out then 1 else 0) +
-  (if outcome_eqb (reader_gen false file cfg) out then 2 else 0) +
-  4 * spec_verdict file cfg out + 16 * trigger_mask file cfg.
+  (if outcome_eqb (reader_model file cfg) out then 1 else 0) + 2 * spec_verdict file cfg out + 8 * trigger_mask file cfg.
 
 (* text-field cases against S: 0 excused by a trigger, 1 ok, 2 not *)
 Definition tf_case_spec (c : tf_case) : Z :=
